@@ -121,6 +121,8 @@ Lemma bind_modify : forall f k st, bind (modify f) k st = k 0 (f st).
 Proof. reflexivity. Qed.
 Lemma bind_ret : forall v k st, bind (ret v) k st = k v st.
 Proof. reflexivity. Qed.
+Lemma bind_ret_k : forall v (k : M) st, bind (ret v) (fun _ => k) st = k st.
+Proof. reflexivity. Qed.
 Lemma bind_eof : forall k st, bind eof k st = k (if pos st >=? len st then 1 else 0) st.
 Proof. reflexivity. Qed.
 
@@ -1420,14 +1422,14 @@ Qed.
 
 (* ================================================================ parameter types: names, substitutions, qualifiers *)
 (* parser state inside a type: dd->type = t > 0, nothing is appended *)
-Definition G (p : Z) (o : option (list Z)) (lv t : Z) (fnm : bool) : state :=
-  mkst p L o t lv 0 false fnm false false.
+Definition G (p : Z) (o : option (list Z)) (lv t tp : Z) (fnm : bool) : state :=
+  mkst p L o t lv tp false fnm false false.
 
-Lemma source_skip_at : forall p o lv t fnm id rest, t <> 0 ->
+Lemma source_skip_at : forall p o lv t tp fnm id rest, t <> 0 ->
   At p (src id ++ rest) -> ident_okb id = true ->
-  dd_source_name true s 0 (G p o lv t fnm) = R 0 (G (p + Z.of_nat (List.length (src id))) o lv t fnm).
+  dd_source_name true s 0 (G p o lv t tp fnm) = R 0 (G (p + Z.of_nat (List.length (src id))) o lv t tp fnm).
 Proof.
-  intros p o lv t fnm id rest Ht H Hid.
+  intros p o lv t tp fnm id rest Ht H Hid.
   set (n := Z.of_nat (List.length id)).
   assert (Hndef : n = Z.of_nat (List.length id)) by reflexivity.
   pose proof (ident_len id Hid) as Hn. fold n in Hn.
@@ -1449,12 +1451,12 @@ Proof.
   reflexivity.
 Qed.
 
-Lemma unq_skip : forall k p o lv t fnm id rest, t <> 0 ->
+Lemma unq_skip : forall k p o lv t tp fnm id rest, t <> 0 ->
   At p (src id ++ rest) -> ident_okb id = true -> hd0 rest <> 66 ->
-  run true s 0 (S k) FUnqualifiedName (G p o lv t fnm) =
-  R 0 (G (p + Z.of_nat (List.length (src id))) o lv t fnm).
+  run true s 0 (S k) FUnqualifiedName (G p o lv t tp fnm) =
+  R 0 (G (p + Z.of_nat (List.length (src id))) o lv t tp fnm).
 Proof.
-  intros k p o lv t fnm id rest Ht H Hid HB.
+  intros k p o lv t tp fnm id rest Ht H Hid HB.
   pose proof (src_hd_digit id rest Hid) as Hd.
   cbn [run body]. unfold dd_unqualified_name. unfold G at 1.
   destruct (src id ++ rest) as [| d tl] eqn:E.
@@ -1466,8 +1468,8 @@ Proof.
   rewrite bind_eof. stsimpl. pose proof (At_lt _ _ _ H) as Hlt. rwf (p >=? L). cbn [hd0]. chs. cbn [Z.eqb].
   rwf (d =? 67). rwf (d =? 68). rwf (d =? 85). cbn [orb].
   unfold islower. rwf (97 <=? d). cbn [andb]. rwf (d =? 76).
-  rewrite bind_ret. rewrite <- E in H. fold (G p o lv t fnm).
-  erewrite bind_R; [| apply (source_skip_at p o lv t fnm id rest); assumption ].
+  rewrite bind_ret. rewrite <- E in H. fold (G p o lv t tp fnm).
+  erewrite bind_R; [| apply (source_skip_at p o lv t tp fnm id rest); assumption ].
   unfold G at 1.
   erewrite bind_R; [| apply (curr_at _ rest); [ apply At_src_tail; exact H | reflexivity ] ].
   rwf (hd0 rest =? 66). reflexivity.
@@ -1484,11 +1486,11 @@ Proof.
     rewrite (IH c r Ha Hc). lia.
 Qed.
 
-Lemma subst_seq_at : forall p o lv t fnm seq rest,
+Lemma subst_seq_at : forall p o lv t tp fnm seq rest,
   At p (83 :: seq ++ 95 :: rest) -> forallb seqchar seq = true ->
-  dd_substitution true s 0 (G p o lv t fnm) = R 0 (G (p + Z.of_nat (List.length seq) + 2) o lv t fnm).
+  dd_substitution true s 0 (G p o lv t tp fnm) = R 0 (G (p + Z.of_nat (List.length seq) + 2) o lv t tp fnm).
 Proof.
-  intros p o lv t fnm seq rest H Hs. unfold dd_substitution. unfold G at 1.
+  intros p o lv t tp fnm seq rest H Hs. unfold dd_substitution. unfold G at 1.
   pose proof (At_lt _ _ _ H) as Hlt.
   rewrite bind_eof. stsimpl. rwf (p >=? L). cbn [Z.eqb].
   unfold expect at 1. unfold consume.
@@ -1502,8 +1504,8 @@ Proof.
     rwf (c =? 116). rwf (c =? 97). rwf (c =? 98). rwf (c =? 115). rwf (c =? 105). rwf (c =? 111). rwf (c =? 100). reflexivity. }
   rewrite Hh.
   (* dd_seq_id *)
-  assert (Hsq : dd_seq_id s 0 (mkst (p + 1) L o t lv 0 false fnm false false)
-                = R 0 (mkst (p + 1 + Z.of_nat (List.length seq)) L o t lv 0 false fnm false false)).
+  assert (Hsq : dd_seq_id s 0 (mkst (p + 1) L o t lv tp false fnm false false)
+                = R 0 (mkst (p + 1 + Z.of_nat (List.length seq)) L o t lv tp false fnm false false)).
   { unfold dd_seq_id.
     erewrite bind_R; [| apply (curr_at _ (seq ++ 95 :: rest)); [ exact H | reflexivity ] ].
     rewrite bind_eof. stsimpl.
@@ -1536,12 +1538,12 @@ Proof.
   - right; left. reflexivity.
 Qed.
 
-Lemma nested_skip_loop : forall items k p o lv t fnm rest, t <> 0 ->
+Lemma nested_skip_loop : forall items k p o lv t tp fnm rest, t <> 0 ->
   At p (nitems_enc items ++ 69 :: rest) -> forallb nitem_okb items = true ->
   (List.length items + 2 <= k)%nat ->
-  run true s 0 k (LNested 0) (G p o lv t fnm) = R 0 (G (p + Z.of_nat (List.length (nitems_enc items))) o lv t fnm).
+  run true s 0 k (LNested 0) (G p o lv t tp fnm) = R 0 (G (p + Z.of_nat (List.length (nitems_enc items))) o lv t tp fnm).
 Proof.
-  induction items as [| i items IH]; intros k p o lv t fnm rest Ht H Hok Hk.
+  induction items as [| i items IH]; intros k p o lv t tp fnm rest Ht H Hok Hk.
   - destruct k as [| k]; [ cbn [List.length] in Hk; lia |].
     cbn [nitems_enc map List.concat app List.length] in *. cbn [run body]. unfold nested_loop, G.
     erewrite bind_R; [| apply (curr_at _ (69 :: rest)); [ exact H | reflexivity ] ].
@@ -1567,9 +1569,9 @@ Proof.
       erewrite bind_R; [| apply (peek1_at _ d tl); [ exact H | reflexivity ] ].
       rwf (d =? 68). rwf (d =? 67). cbn [andb orb]. rwf (d =? 85). cbn [orb].
       unfold islower, isdigit. rwf (97 <=? d). rwt (48 <=? d). rwt (d <=? 57). cbn [andb orb].
-      rewrite <- E in H. fold (G p o lv t fnm).
-      erewrite bind_R; [| apply (unq_skip k1 p o lv t fnm id tail); try assumption; lia ].
-      rewrite (IH (S k1) _ o lv t fnm rest Ht (At_src_tail _ _ _ H) Hitems ltac:(lia)).
+      rewrite <- E in H. fold (G p o lv t tp fnm).
+      erewrite bind_R; [| apply (unq_skip k1 p o lv t tp fnm id tail); try assumption; lia ].
+      rewrite (IH (S k1) _ o lv t tp fnm rest Ht (At_src_tail _ _ _ H) Hitems ltac:(lia)).
       f_equal. unfold G. f_equal. rewrite app_length. lia.
     + cbn [app] in H. rewrite <- app_assoc in H. cbn [app] in H. unfold G at 1.
       erewrite bind_R; [| apply (curr_at _ (83 :: seq ++ 95 :: tail)); [ exact H | reflexivity ] ].
@@ -1577,22 +1579,22 @@ Proof.
       cbn [Z.eqb Pos.eqb orb negb].
       erewrite bind_R; [| apply (peek1_at _ 83 (seq ++ 95 :: tail)); [ exact H | reflexivity ] ].
       cbn [andb orb]. unfold islower, isdigit. cbn [Z.leb Z.compare Pos.compare Pos.compare_cont andb orb].
-      fold (G p o lv t fnm).
-      erewrite bind_R; [| apply (subst_seq_at p o lv t fnm seq tail); assumption ].
+      fold (G p o lv t tp fnm).
+      erewrite bind_R; [| apply (subst_seq_at p o lv t tp fnm seq tail); assumption ].
       assert (H2 : At (p + Z.of_nat (List.length seq) + 2) tail).
       { replace (p + Z.of_nat (List.length seq) + 2) with (p + Z.of_nat (List.length (83 :: seq ++ [95])))
           by (cbn [List.length]; rewrite app_length; cbn [List.length]; lia).
         apply At_app. cbn [app]. rewrite <- app_assoc. exact H. }
-      rewrite (IH (S k1) _ o lv t fnm rest Ht H2 Hitems ltac:(lia)).
+      rewrite (IH (S k1) _ o lv t tp fnm rest Ht H2 Hitems ltac:(lia)).
       f_equal. unfold G. f_equal. cbn [List.length app]. repeat rewrite app_length. cbn [List.length]. lia.
 Qed.
 
-Lemma nested_name_skip : forall items k p o lv t fnm rest, t <> 0 ->
+Lemma nested_name_skip : forall items k p o lv t tp fnm rest, t <> 0 ->
   At p (78 :: nitems_enc items ++ 69 :: rest) -> forallb nitem_okb items = true ->
   (List.length items + 3 <= k)%nat ->
-  run true s 0 k FNestedName (G p o lv t fnm) = R 0 (G (p + Z.of_nat (List.length (nitems_enc items)) + 2) o lv t fnm).
+  run true s 0 k FNestedName (G p o lv t tp fnm) = R 0 (G (p + Z.of_nat (List.length (nitems_enc items)) + 2) o lv t tp fnm).
 Proof.
-  intros items k p o lv t fnm rest Ht H Hok Hk.
+  intros items k p o lv t tp fnm rest Ht H Hok Hk.
   destruct k as [| k]; [ lia |].
   change (run true s 0 (S k) FNestedName) with (dd_nested_name s 0 (run true s 0 k)).
   unfold dd_nested_name. unfold G at 1. pose proof (At_lt _ _ _ H).
@@ -1601,8 +1603,8 @@ Proof.
   erewrite bind_R; [| apply (consume_n_at _ 1 (78 :: nitems_enc items ++ 69 :: rest)); [ exact H | reflexivity | cbn [List.length]; lia ] ].
   cbn [hd0]. chs. cbn [Z.eqb Pos.eqb]. stsimpl.
   unfold inc_level. rewrite bind_modify. stsimpl.
-  apply At_cons in H. fold (G (p + 1) o (lv + 1) t fnm).
-  erewrite bind_R; [| apply (nested_skip_loop items k (p + 1) o (lv + 1) t fnm rest Ht H Hok); lia ].
+  apply At_cons in H. fold (G (p + 1) o (lv + 1) t tp fnm).
+  erewrite bind_R; [| apply (nested_skip_loop items k (p + 1) o (lv + 1) t tp fnm rest Ht H Hok); lia ].
   apply At_app in H.
   unfold expect. unfold consume. unfold G at 1.
   erewrite bind_R; [| apply (consume_n_at _ 1 (69 :: rest)); [ exact H | reflexivity | cbn [List.length]; lia ] ].
@@ -1645,11 +1647,11 @@ Proof.
   apply andb_prop in H. destruct H as [Hx H]. rwf (d =? x). cbn [orb]. apply IH. exact H.
 Qed.
 
-Lemma type_base_at : forall b k p o lv t fnm rest, t <> 0 ->
+Lemma type_base_at : forall b k p o lv t tp fnm rest, t <> 0 ->
   At p (tbase_enc b ++ rest) -> tbase_okb b = true -> follow_ok rest -> (tbase_cost b <= k)%nat ->
-  run true s 0 k (LType (-1)) (G p o lv t fnm) = R 0 (G (p + Z.of_nat (List.length (tbase_enc b))) o lv t fnm).
+  run true s 0 k (LType (-1)) (G p o lv t tp fnm) = R 0 (G (p + Z.of_nat (List.length (tbase_enc b))) o lv t tp fnm).
 Proof.
-  intros b k p o lv t fnm rest Ht H Hok [HfI HfB] Hk.
+  intros b k p o lv t tp fnm rest Ht H Hok [HfI HfB] Hk.
   destruct k as [| k]; [ destruct b; cbn [tbase_cost] in Hk; lia |].
   change (run true s 0 (S k) (LType (-1))) with (type_loop true s 0 (run true s 0 k) (-1)).
   unfold type_loop. unfold G at 1.
@@ -1669,8 +1671,8 @@ Proof.
     erewrite bind_R; [| apply (curr_at _ (83 :: seq ++ 95 :: rest)); [ exact H | reflexivity ] ].
     cbn [hd0]. sc_eval. chs. cbn [Z.eqb Pos.eqb].
     erewrite bind_R; [| apply (peek1_at _ 83 (seq ++ 95 :: rest)); [ exact H | reflexivity ] ].
-    fold (G p o lv t fnm).
-    erewrite bind_R; [| apply (subst_seq_at p o lv t fnm seq rest); assumption ].
+    fold (G p o lv t tp fnm).
+    erewrite bind_R; [| apply (subst_seq_at p o lv t tp fnm seq rest); assumption ].
     assert (H2 : At (p + Z.of_nat (List.length seq) + 2) rest).
     { replace (p + Z.of_nat (List.length seq) + 2) with (p + Z.of_nat (List.length (83 :: seq ++ [95])))
         by (cbn [List.length]; rewrite app_length; cbn [List.length]; lia).
@@ -1701,8 +1703,8 @@ Proof.
     unfold dd_name.
     erewrite bind_R; [| apply (curr_at _ (d :: tl)); [ exact H | reflexivity ] ].
     rewrite bind_eof. stsimpl. rwf (p >=? L). cbn [hd0 Z.eqb]. chs. rwf (d =? 78). rwf (d =? 90). rwf (d =? 83).
-    rewrite <- E in H. fold (G p o lv t fnm).
-    erewrite bind_R; [| apply (unq_skip k2 p o lv t fnm id rest); assumption ].
+    rewrite <- E in H. fold (G p o lv t tp fnm).
+    erewrite bind_R; [| apply (unq_skip k2 p o lv t tp fnm id rest); assumption ].
     cbn [Z.ltb Z.compare]. unfold G at 1.
     erewrite bind_R; [| apply (curr_at _ rest); [ apply At_src_tail; exact H | reflexivity ] ].
     rwf (hd0 rest =? 73). reflexivity.
@@ -1716,20 +1718,20 @@ Proof.
     unfold dd_name.
     erewrite bind_R; [| apply (curr_at _ (78 :: nitems_enc items ++ 69 :: rest)); [ exact H | reflexivity ] ].
     rewrite bind_eof. stsimpl. rwf (p >=? L). cbn [hd0 Z.eqb]. chs. cbn [Z.eqb Pos.eqb].
-    fold (G p o lv t fnm).
-    rewrite (nested_name_skip items k1 p o lv t fnm rest Ht H Hok ltac:(lia)).
+    fold (G p o lv t tp fnm).
+    rewrite (nested_name_skip items k1 p o lv t tp fnm rest Ht H Hok ltac:(lia)).
     f_equal. unfold G. f_equal. rewrite app_length. cbn [List.length]. lia.
 Qed.
 
-Lemma type_quals_at : forall quals b k p o lv t fnm rest, t <> 0 ->
+Lemma type_quals_at : forall quals b k p o lv t tp fnm rest, t <> 0 ->
   At p (quals ++ tbase_enc b ++ rest) -> forallb tyqual_okb quals = true -> tbase_okb b = true ->
   follow_ok rest -> (List.length quals + tbase_cost b <= k)%nat ->
-  run true s 0 k (LType (-1)) (G p o lv t fnm) =
-  R 0 (G (p + Z.of_nat (List.length quals) + Z.of_nat (List.length (tbase_enc b))) o lv t fnm).
+  run true s 0 k (LType (-1)) (G p o lv t tp fnm) =
+  R 0 (G (p + Z.of_nat (List.length quals) + Z.of_nat (List.length (tbase_enc b))) o lv t tp fnm).
 Proof.
-  induction quals as [| q qs IH]; intros b k p o lv t fnm rest Ht H Hq Hb Hf Hk.
+  induction quals as [| q qs IH]; intros b k p o lv t tp fnm rest Ht H Hq Hb Hf Hk.
   - cbn [app List.length Nat.add] in *. replace (p + Z.of_nat 0) with p by lia.
-    apply (type_base_at b k p o lv t fnm rest); assumption.
+    apply (type_base_at b k p o lv t tp fnm rest); assumption.
   - cbn [forallb] in Hq. apply andb_prop in Hq. destruct Hq as [Hq Hqs]. cbn [app List.length] in *.
     destruct k as [| k]; [ lia |].
     change (run true s 0 (S k) (LType (-1))) with (type_loop true s 0 (run true s 0 k) (-1)).
@@ -1737,19 +1739,19 @@ Proof.
     rewrite bind_eof. stsimpl. rwf (p >=? L). cbn [Z.eqb].
     erewrite bind_R; [| apply (curr_at _ (q :: qs ++ tbase_enc b ++ rest)); [ exact H | reflexivity ] ].
     cbn [hd0].
-    assert (Hnext : run true s 0 k (LType (-1)) (G (p + 1) o lv t fnm) =
-                    R 0 (G (p + Z.of_nat (S (List.length qs)) + Z.of_nat (List.length (tbase_enc b))) o lv t fnm)).
-    { rewrite (IH b k (p + 1) o lv t fnm rest Ht (At_cons _ _ _ H) Hqs Hb Hf ltac:(lia)).
+    assert (Hnext : run true s 0 k (LType (-1)) (G (p + 1) o lv t tp fnm) =
+                    R 0 (G (p + Z.of_nat (S (List.length qs)) + Z.of_nat (List.length (tbase_enc b))) o lv t tp fnm)).
+    { rewrite (IH b k (p + 1) o lv t tp fnm rest Ht (At_cons _ _ _ H) Hqs Hb Hf ltac:(lia)).
       f_equal. unfold G. f_equal. lia. }
-    assert (Hcons : consume s 0 (G p o lv t fnm) = R q (G (p + 1) o lv t fnm)).
+    assert (Hcons : consume s 0 (G p o lv t tp fnm) = R q (G (p + 1) o lv t tp fnm)).
     { unfold consume. rewrite (consume_n_at _ 1 (q :: qs ++ tbase_enc b ++ rest)); [ reflexivity | exact H | reflexivity | cbn [List.length]; lia ]. }
     assert (Hdq : strchr_set (str "rVKRO") q = true ->
-                  dd_qualifier s 0 (G p o lv t fnm) = R 0 (G (p + 1) o lv t fnm)).
+                  dd_qualifier s 0 (G p o lv t tp fnm) = R 0 (G (p + 1) o lv t tp fnm)).
     { intros Hs. unfold dd_qualifier. unfold G at 1.
       erewrite bind_R; [| apply (curr_at _ (q :: qs ++ tbase_enc b ++ rest)); [ exact H | reflexivity ] ].
       rewrite bind_eof. stsimpl. rwf (p >=? L). cbn [Z.eqb hd0]. rewrite Hs.
-      fold (G p o lv t fnm). erewrite bind_R; [| exact Hcons ]. reflexivity. }
-    fold (G p o lv t fnm).
+      fold (G p o lv t tp fnm). erewrite bind_R; [| exact Hcons ]. reflexivity. }
+    fold (G p o lv t tp fnm).
     unfold tyqual_okb in Hq. cbn in Hq.
     repeat (apply orb_prop in Hq; destruct Hq as [Hq | Hq]); try discriminate; apply Z.eqb_eq in Hq; subst q; sc_eval; cbv iota.
     1-3: (erewrite bind_R; [| apply Hdq; reflexivity ]; exact Hnext).
@@ -1762,11 +1764,11 @@ Definition ty_okb (t : ty) : bool := forallb tyqual_okb (ty_quals t) && tbase_ok
 Definition ty_cost (t : ty) : nat := List.length (ty_quals t) + tbase_cost (ty_base t) + 1.
 
 (* dd_type on one <type> *)
-Lemma type_at : forall ty0 k p o lv t fnm rest, 0 <= t ->
+Lemma type_at : forall ty0 k p o lv t tp fnm rest, 0 <= t ->
   At p (ty_enc ty0 ++ rest) -> ty_okb ty0 = true -> follow_ok rest -> (ty_cost ty0 <= k)%nat ->
-  run true s 0 k FType (G p o lv t fnm) = R 0 (G (p + Z.of_nat (List.length (ty_enc ty0))) o lv t fnm).
+  run true s 0 k FType (G p o lv t tp fnm) = R 0 (G (p + Z.of_nat (List.length (ty_enc ty0))) o lv t tp fnm).
 Proof.
-  intros [quals b] k p o lv t fnm rest Ht H Hok Hf Hk. unfold ty_enc, ty_okb, ty_cost in *. cbn [ty_quals ty_base] in *.
+  intros [quals b] k p o lv t tp fnm rest Ht H Hok Hf Hk. unfold ty_enc, ty_okb, ty_cost in *. cbn [ty_quals ty_base] in *.
   apply andb_prop in Hok. destruct Hok as [Hq Hb]. rewrite <- app_assoc in H.
   destruct k as [| k]; [ lia |].
   change (run true s 0 (S k) FType) with (dd_type (run true s 0 k)).
@@ -1779,8 +1781,8 @@ Proof.
     lia. }
   rewrite bind_eof. stsimpl. rwf (p >=? L). cbn [Z.eqb].
   unfold inc_typ, inc_level. rewrite !bind_modify. stsimpl.
-  fold (G p o (lv + 1) (t + 1) fnm).
-  erewrite bind_R; [| apply (type_quals_at quals b k p o (lv + 1) (t + 1) fnm rest); try assumption; lia ].
+  fold (G p o (lv + 1) (t + 1) tp fnm).
+  erewrite bind_R; [| apply (type_quals_at quals b k p o (lv + 1) (t + 1) tp fnm rest); try assumption; lia ].
   unfold dec_level, dec_typ. rewrite !bind_modify. unfold ret, G. stsimpl.
   replace (t + 1 - 1) with t by lia. replace (lv + 1 - 1) with lv by lia.
   rewrite app_length. f_equal. f_equal. lia.
@@ -1845,11 +1847,11 @@ Proof.
     rewrite bind_eof. stsimpl. rwf (p >=? L).
     erewrite bind_R; [| apply (curr_at _ (ty_enc t ++ List.concat (map ty_enc tys))); [ exact H | reflexivity ] ].
     cbn [Z.eqb orb]. rewrite Fe.
-    change (mkst p L (Some x) 0 1 0 false false false false) with (G p (Some x) 1 0 false).
-    erewrite bind_R; [| apply (type_at t k p (Some x) 1 0 false (List.concat (map ty_enc tys))); try assumption; try lia;
+    change (mkst p L (Some x) 0 1 0 false false false false) with (G p (Some x) 1 0 0 false).
+    erewrite bind_R; [| apply (type_at t k p (Some x) 1 0 0 false (List.concat (map ty_enc tys))); try assumption; try lia;
                         apply (tys_follow tys Htys) ].
     cbn [Z.ltb Z.compare].
-    change (G (p + Z.of_nat (List.length (ty_enc t))) (Some x) 1 0 false)
+    change (G (p + Z.of_nat (List.length (ty_enc t))) (Some x) 1 0 0 false)
       with (NS (p + Z.of_nat (List.length (ty_enc t))) (Some x) 1 false).
     rewrite (IH k _ x (At_app _ _ _ H) Htys ltac:(lia)).
     f_equal. unfold NS. f_equal. rewrite app_length. lia.
@@ -1949,6 +1951,455 @@ Proof.
   reflexivity.
 Qed.
 
+
+(* ================================================================ types with template arguments (mutually recursive grammar) *)
+(* cost-indexed grammar; the strings are the manglings themselves:
+     TyL : (r|V|K|P|R|O|C|G)* ( <builtin> | S <seq-id> _ [<targs>] | <source-name> [<targs>] | N <items> E )
+     TA  : empty | I <targ>* E             TAL : <targ>*  with <targ> ::= <type> | L <builtin> <number> E
+     NI  : ( <source-name> [<targs>] | S <seq-id> _ [<targs>] )*                                         *)
+Inductive TyL : nat -> list Z -> Prop :=
+| TL_builtin : forall c, is_builtin c = true -> TyL 1 [c]
+| TL_qual : forall q n u, tyqual_okb q = true -> TyL n u -> TyL (S n) (q :: u)
+| TL_subst : forall seq n ta, forallb seqchar seq = true -> TA n ta -> TyL (S n) (83 :: seq ++ 95 :: ta)
+| TL_src : forall id n ta, ident_okb id = true -> TA n ta -> TyL (n + 3) (src id ++ ta)
+| TL_nested : forall n items, NI n items -> TyL (n + 4) (78 :: items ++ [69])
+with TA : nat -> list Z -> Prop :=
+| TA_none : TA 0 []
+| TA_some : forall n l, TAL n l -> TA (n + 2) (73 :: l ++ [69])
+with TAL : nat -> list Z -> Prop :=
+| TAL_nil : TAL 1 []
+| TAL_ty : forall n m u l, TyL n u -> TAL m l -> TAL (n + m + 3) (u ++ l)
+| TAL_lit : forall c v m l, is_builtin c = true -> 0 < v < 1000000000 -> TAL m l ->
+            TAL (m + 6) (76 :: c :: dec v ++ 69 :: l)
+with NI : nat -> list Z -> Prop :=
+| NI_nil : NI 1 []
+| NI_src : forall id n ta m l, ident_okb id = true -> TA n ta -> NI m l -> NI (n + m + 2) (src id ++ ta ++ l)
+| NI_sub : forall seq n ta m l, forallb seqchar seq = true -> TA n ta -> NI m l ->
+           NI (n + m + 2) (83 :: seq ++ 95 :: ta ++ l).
+
+Scheme TyL_mut := Minimality for TyL Sort Prop
+  with TA_mut := Minimality for TA Sort Prop
+  with TAL_mut := Minimality for TAL Sort Prop
+  with NI_mut := Minimality for NI Sort Prop.
+Combined Scheme grammar_ind from TyL_mut, TA_mut, TAL_mut, NI_mut.
+
+Lemma TyL_hd : forall n u, TyL n u -> forall rest, tyhd (hd0 (u ++ rest)) = true.
+Proof.
+  intros n u H. induction H as [c Hc | q n u Hq H IH | seq n ta Hs Hta | id n ta Hid Hta | n items Hi]; intros rest;
+    unfold tyhd; cbn [app hd0].
+  - rewrite Hc. rewrite orb_true_r. reflexivity.
+  - rewrite Hq. reflexivity.
+  - rewrite !orb_true_r. reflexivity.
+  - rewrite <- app_assoc. pose proof (src_hd_digit id (ta ++ rest) Hid) as Hd. unfold isdigit.
+    rwt (48 <=? hd0 (src id ++ ta ++ rest)). rwt (hd0 (src id ++ ta ++ rest) <=? 57). cbn [andb]. rewrite !orb_true_r. reflexivity.
+  - rewrite !orb_true_r. reflexivity.
+Qed.
+Lemma TA_hd : forall n ta, TA n ta -> ta = [] \/ exists r, ta = 73 :: r.
+Proof. intros n ta H. destruct H; [ left; reflexivity | right; eexists; reflexivity ]. Qed.
+Lemma TAL_hd : forall m l, TAL m l -> forall rest, follow_ok (l ++ 69 :: rest) /\ (hd0 (l ++ 69 :: rest) = 69 \/ hd0 (l ++ 69 :: rest) = 76 \/ tyhd (hd0 (l ++ 69 :: rest)) = true).
+Proof.
+  intros m l H rest. destruct H as [| n m u l Hu Hl | c v m l Hc Hv Hl ].
+  - cbn. split; [ split; discriminate | left; reflexivity ].
+  - rewrite <- app_assoc. pose proof (TyL_hd n u Hu (l ++ 69 :: rest)) as Hh.
+    destruct (tyhd_facts _ Hh) as [_ [A B]]. split; [ split; assumption | right; right; exact Hh ].
+  - cbn [app hd0]. split; [ split; discriminate | right; left; reflexivity ].
+Qed.
+Lemma NI_hd : forall m l, NI m l -> forall rest,
+  let h := hd0 (l ++ 69 :: rest) in (48 <= h <= 57) \/ h = 83 \/ h = 69.
+Proof.
+  intros m l H rest. destruct H as [| id n ta m l Hid Hta Hl | seq n ta m l Hs Hta Hl ]; cbn zeta.
+  - right; right; reflexivity.
+  - left. rewrite <- !app_assoc. apply src_hd_digit. exact Hid.
+  - right; left. reflexivity.
+Qed.
+
+Lemma number_lit_at : forall st v rest, At (pos st) (dec v ++ 69 :: rest) -> len st = L -> 0 < v < 1000000000 ->
+  exists r, dd_number s 0 st = R r (set_pos st (pos st + Z.of_nat (List.length (dec v)))).
+Proof.
+  intros st v rest H Hl Hv. eexists. apply (number_at st v (69 :: rest) H Hl Hv). reflexivity.
+Qed.
+
+Definition P_TyL (n : nat) (u : list Z) : Prop :=
+  forall k p o lv t tp fnm rest, 0 < t -> At p (u ++ rest) -> follow_ok rest -> (n <= k)%nat ->
+  run true s 0 k (LType (-1)) (G p o lv t tp fnm) = R 0 (G (p + Z.of_nat (List.length u)) o lv t tp fnm).
+Definition P_TA (n : nat) (ta : list Z) : Prop :=
+  forall k p o lv t tp fnm rest, 0 <= t -> ta <> [] -> At p (ta ++ rest) -> (n <= k)%nat ->
+  run true s 0 k FTemplateArgs (G p o lv t tp fnm) = R 0 (G (p + Z.of_nat (List.length ta)) o lv t tp fnm).
+Definition P_TAL (n : nat) (l : list Z) : Prop :=
+  forall k p o lv t tp fnm rest, 0 <= t -> At p (l ++ 69 :: rest) -> (n <= k)%nat ->
+  run true s 0 k (LUntilE FTemplateArg) (G p o lv t tp fnm) = R 0 (G (p + Z.of_nat (List.length l)) o lv t tp fnm).
+Definition P_NI (n : nat) (l : list Z) : Prop :=
+  forall k p o lv t tp fnm rest, 0 < t -> At p (l ++ 69 :: rest) -> (n <= k)%nat ->
+  run true s 0 k (LNested 0) (G p o lv t tp fnm) = R 0 (G (p + Z.of_nat (List.length l)) o lv t tp fnm).
+
+(* after an optional <targs>: `if (dd_curr(dd) == 'I') ret = dd_template_args(dd)` *)
+Lemma targs_cont : forall n ta k p o lv t tp fnm rest v, TA n ta -> P_TA n ta -> 0 <= t ->
+  At p (ta ++ rest) -> hd0 rest <> 73 -> (n <= k)%nat -> (v = 0) ->
+  (c <- curr s 0 ;; if c =? 73 then run true s 0 k FTemplateArgs else ret v) (G p o lv t tp fnm) =
+  R 0 (G (p + Z.of_nat (List.length ta)) o lv t tp fnm).
+Proof.
+  intros n ta k p o lv t tp fnm rest v Hta HP Ht H Hr Hk Hv. subst v.
+  unfold G at 1.
+  erewrite bind_R; [| apply (curr_at _ (ta ++ rest)); [ exact H | reflexivity ] ].
+  destruct (TA_hd n ta Hta) as [E | [r E]]; subst ta.
+  - cbn [app List.length]. rwf (hd0 rest =? 73). replace (p + Z.of_nat 0) with p by lia. reflexivity.
+  - cbn [app hd0]. cbn [Z.eqb Pos.eqb]. fold (G p o lv t tp fnm).
+    apply (HP k p o lv t tp fnm rest Ht ltac:(discriminate) H Hk).
+Qed.
+
+
+Lemma P_builtin : forall c, is_builtin c = true -> P_TyL 1 [c].
+Proof.
+  intros c Hc k p o lv t tp fnm rest Ht H [HfI HfB] Hk.
+  destruct k as [| k]; [ lia |].
+  change (run true s 0 (S k) (LType (-1))) with (type_loop true s 0 (run true s 0 k) (-1)).
+  unfold type_loop. unfold G at 1. cbn [app] in H.
+  destruct (builtin_facts c Hc) as [F1 [F2 [F3 [F4 [F5 [F6 [F7 [F8 [F9 [F10 [F11 [F12 [F13 F14]]]]]]]]]]]]].
+  pose proof (At_lt _ _ _ H).
+  rewrite bind_eof. stsimpl. rwf (p >=? L). cbn [Z.eqb].
+  erewrite bind_R; [| apply (curr_at _ (c :: rest)); [ exact H | reflexivity ] ].
+  cbn [hd0]. rewrite F1, F2, F3, F4, F5, F6, F7, F8, F9, F10, F11, F12.
+  unfold is_builtin in Hc. rewrite Hc. unfold consume.
+  erewrite bind_R; [| apply (consume_n_at _ 1 (c :: rest)); [ exact H | reflexivity | cbn [List.length]; lia ] ].
+  reflexivity.
+Qed.
+
+(* dd_type around the type loop *)
+Lemma type_wrap : forall n u, P_TyL n u -> u <> [] ->
+  forall k p o lv t tp fnm rest, 0 <= t -> At p (u ++ rest) -> follow_ok rest -> (S n <= k)%nat ->
+  run true s 0 k FType (G p o lv t tp fnm) = R 0 (G (p + Z.of_nat (List.length u)) o lv t tp fnm).
+Proof.
+  intros n u HP Hne k p o lv t tp fnm rest Ht H Hf Hk.
+  destruct k as [| k]; [ lia |].
+  change (run true s 0 (S k) FType) with (dd_type (run true s 0 k)).
+  unfold dd_type. unfold G at 1.
+  assert (Hlt : p < L).
+  { destruct u as [| c r]; [ contradiction |]. cbn [app] in H. apply (At_lt _ _ _ H). }
+  rewrite bind_eof. stsimpl. rwf (p >=? L). cbn [Z.eqb].
+  unfold inc_typ, inc_level. rewrite !bind_modify. stsimpl.
+  fold (G p o (lv + 1) (t + 1) tp fnm).
+  erewrite bind_R; [| apply (HP k p o (lv + 1) (t + 1) tp fnm rest); [ lia | exact H | exact Hf | lia ] ].
+  unfold dec_level, dec_typ. rewrite !bind_modify. unfold ret, G. stsimpl.
+  replace (t + 1 - 1) with t by lia. replace (lv + 1 - 1) with lv by lia. reflexivity.
+Qed.
+
+Lemma TyL_nonempty : forall n u, TyL n u -> u <> [].
+Proof.
+  intros n u H. destruct H; try discriminate.
+  unfold src. destruct (hd0_dec_digit _ (id ++ ta) (ident_len id H)) as [_ Hne].
+  destruct (dec (Z.of_nat (List.length id))); [ contradiction | discriminate ].
+Qed.
+
+(* optional <targs> inside a nested name, then the rest of the loop *)
+Lemma ni_cont : forall n ta m l k p o lv t tp fnm rest, TA n ta -> P_TA n ta -> P_NI m l -> 0 < t ->
+  At p (ta ++ l ++ 69 :: rest) ->
+  (let h := hd0 (l ++ 69 :: rest) in (48 <= h <= 57) \/ h = 83 \/ h = 69) -> (n + m + 1 <= k)%nat ->
+  run true s 0 k (LNested 0) (G p o lv t tp fnm) =
+  R 0 (G (p + Z.of_nat (List.length ta) + Z.of_nat (List.length l)) o lv t tp fnm).
+Proof.
+  intros n ta m l k p o lv t tp fnm rest Hta HPa HPl Ht H Hh Hk.
+  destruct (TA_hd n ta Hta) as [E | [r E]]; subst ta.
+  - cbn [app List.length] in *. replace (p + Z.of_nat 0) with p by lia.
+    apply (HPl k p o lv t tp fnm rest Ht H). lia.
+  - destruct k as [| k]; [ lia |].
+    change (run true s 0 (S k) (LNested 0)) with (nested_loop true s 0 (run true s 0 k) 0).
+    unfold nested_loop. unfold G at 1. cbn [app] in H.
+    erewrite bind_R; [| apply (curr_at _ (73 :: r ++ l ++ 69 :: rest)); [ exact H | reflexivity ] ].
+    rewrite bind_eof. stsimpl. pose proof (At_lt _ _ _ H) as Hlt. rwf (p >=? L). cbn [hd0]. chs.
+    cbn [Z.eqb Pos.eqb orb negb].
+    erewrite bind_R; [| apply (peek1_at _ 73 (r ++ l ++ 69 :: rest)); [ exact H | reflexivity ] ].
+    cbn [andb orb]. unfold islower, isdigit. cbn [Z.leb Z.compare Pos.compare Pos.compare_cont andb orb].
+    fold (G p o lv t tp fnm).
+    change (73 :: r ++ l ++ 69 :: rest) with ((73 :: r) ++ l ++ 69 :: rest) in H.
+    erewrite bind_R; [| apply (HPa k p o lv t tp fnm (l ++ 69 :: rest)); [ lia | discriminate | exact H | lia ] ].
+    rewrite (HPl k _ o lv t tp fnm rest Ht (At_app _ _ _ H) ltac:(lia)). reflexivity.
+Qed.
+
+Lemma grammar_walk :
+  (forall n u, TyL n u -> P_TyL n u) /\ (forall n ta, TA n ta -> P_TA n ta) /\
+  (forall n l, TAL n l -> P_TAL n l) /\ (forall n l, NI n l -> P_NI n l).
+Proof.
+  apply grammar_ind.
+  - (* builtin *)
+    intros c Hc. apply P_builtin. exact Hc.
+  - (* qualifier *)
+    intros q n u Hq Hu IH k p o lv t tp fnm rest Ht H Hf Hk. cbn [app List.length] in *.
+    destruct k as [| k]; [ lia |].
+    change (run true s 0 (S k) (LType (-1))) with (type_loop true s 0 (run true s 0 k) (-1)).
+    unfold type_loop. unfold G at 1. pose proof (At_lt _ _ _ H) as Hlt.
+    rewrite bind_eof. stsimpl. rwf (p >=? L). cbn [Z.eqb].
+    erewrite bind_R; [| apply (curr_at _ (q :: u ++ rest)); [ exact H | reflexivity ] ].
+    cbn [hd0].
+    assert (Hnext : run true s 0 k (LType (-1)) (G (p + 1) o lv t tp fnm) =
+                    R 0 (G (p + Z.of_nat (S (List.length u))) o lv t tp fnm)).
+    { rewrite (IH k (p + 1) o lv t tp fnm rest Ht (At_cons _ _ _ H) Hf ltac:(lia)).
+      f_equal. unfold G. f_equal. lia. }
+    assert (Hcons : consume s 0 (G p o lv t tp fnm) = R q (G (p + 1) o lv t tp fnm)).
+    { unfold consume. rewrite (consume_n_at _ 1 (q :: u ++ rest)); [ reflexivity | exact H | reflexivity | cbn [List.length]; lia ]. }
+    assert (Hdq : strchr_set (str "rVKRO") q = true ->
+                  dd_qualifier s 0 (G p o lv t tp fnm) = R 0 (G (p + 1) o lv t tp fnm)).
+    { intros Hs. unfold dd_qualifier. unfold G at 1.
+      erewrite bind_R; [| apply (curr_at _ (q :: u ++ rest)); [ exact H | reflexivity ] ].
+      rewrite bind_eof. stsimpl. rwf (p >=? L). cbn [Z.eqb hd0]. rewrite Hs.
+      fold (G p o lv t tp fnm). erewrite bind_R; [| exact Hcons ]. reflexivity. }
+    fold (G p o lv t tp fnm).
+    unfold tyqual_okb in Hq. cbn in Hq.
+    repeat (apply orb_prop in Hq; destruct Hq as [Hq | Hq]); try discriminate; apply Z.eqb_eq in Hq; subst q; sc_eval; cbv iota.
+    1-3: (erewrite bind_R; [| apply Hdq; reflexivity ]; exact Hnext).
+    all: erewrite bind_R; [| exact Hcons ]; exact Hnext.
+  - (* S <seq-id> _ [<targs>] *)
+    intros seq n ta Hs Hta IH k p o lv t tp fnm rest Ht H [HfI HfB] Hk.
+    destruct k as [| k]; [ lia |].
+    change (run true s 0 (S k) (LType (-1))) with (type_loop true s 0 (run true s 0 k) (-1)).
+    unfold type_loop. unfold G at 1. cbn [app] in H. rewrite <- app_assoc in H. cbn [app] in H.
+    pose proof (At_lt _ _ _ H).
+    rewrite bind_eof. stsimpl. rwf (p >=? L). cbn [Z.eqb].
+    erewrite bind_R; [| apply (curr_at _ (83 :: seq ++ 95 :: ta ++ rest)); [ exact H | reflexivity ] ].
+    cbn [hd0]. sc_eval. chs. cbn [Z.eqb Pos.eqb].
+    erewrite bind_R; [| apply (peek1_at _ 83 (seq ++ 95 :: ta ++ rest)); [ exact H | reflexivity ] ].
+    fold (G p o lv t tp fnm).
+    erewrite bind_R; [| apply (subst_seq_at p o lv t tp fnm seq (ta ++ rest)); assumption ].
+    assert (H2 : At (p + Z.of_nat (List.length seq) + 2) (ta ++ rest)).
+    { replace (p + Z.of_nat (List.length seq) + 2) with (p + Z.of_nat (List.length (83 :: seq ++ [95])))
+        by (cbn [List.length]; rewrite app_length; cbn [List.length]; lia).
+      apply At_app. cbn [app]. rewrite <- app_assoc. exact H. }
+    unfold G at 1.
+    erewrite bind_R; [| apply (curr_at _ (ta ++ rest)); [ exact H2 | reflexivity ] ].
+    assert (Hc1 : (hd0 (seq ++ 95 :: ta ++ rest) =? 116) = false).
+    { destruct seq as [| c sq]; [ reflexivity |]. cbn [app hd0]. cbn [forallb] in Hs. apply andb_prop in Hs.
+      destruct Hs as [Hc _]. unfold seqchar, isdigit, isupper in Hc. lia. }
+    cbn [Z.eqb]. rewrite Hc1. cbn [andb]. rewrite bind_ret.
+    fold (G (p + Z.of_nat (List.length seq) + 2) o lv t tp fnm).
+    rewrite (targs_cont n ta k _ o lv t tp fnm rest 0 Hta IH ltac:(lia) H2 HfI ltac:(lia) eq_refl).
+    f_equal. unfold G. f_equal. cbn [List.length]. repeat rewrite app_length. cbn [List.length]. lia.
+  - (* <source-name> [<targs>] *)
+    intros id n ta Hid Hta IH k p o lv t tp fnm rest Ht H [HfI HfB] Hk.
+    destruct k as [| k]; [ lia |].
+    change (run true s 0 (S k) (LType (-1))) with (type_loop true s 0 (run true s 0 k) (-1)).
+    unfold type_loop. unfold G at 1. rewrite <- app_assoc in H.
+    pose proof (src_hd_digit id (ta ++ rest) Hid) as Hd.
+    destruct (src id ++ ta ++ rest) as [| d tl] eqn:E.
+    { exfalso. unfold src in E. destruct (hd0_dec_digit _ (id ++ ta ++ rest) (ident_len id Hid)) as [_ Hne].
+      rewrite <- app_assoc in E. destruct (dec (Z.of_nat (List.length id))); [ contradiction | discriminate ]. }
+    cbn [hd0] in Hd. pose proof (At_lt _ _ _ H).
+    rewrite bind_eof. stsimpl. rwf (p >=? L). cbn [Z.eqb].
+    erewrite bind_R; [| apply (curr_at _ (d :: tl)); [ exact H | reflexivity ] ].
+    cbn [hd0].
+    rewrite (sc_digit (str "rVK") d Hd eq_refl). rewrite (sc_digit (str "PROCG") d Hd eq_refl). chs.
+    rwf (d =? 70). rwf (d =? 84). rwf (d =? 65). rwf (d =? 77). rwf (d =? 68). rwf (d =? 83).
+    rwf (d =? 117). rwf (d =? 85). rwf (d =? 73).
+    unfold isdigit. rwt (48 <=? d). rwt (d <=? 57). cbn [andb orb].
+    destruct k as [| k1]; [ lia |]. destruct k1 as [| k2]; [ lia |].
+    change (run true s 0 (S (S k2)) FName) with (dd_name true s 0 (run true s 0 (S k2))).
+    unfold dd_name.
+    erewrite bind_R; [| apply (curr_at _ (d :: tl)); [ exact H | reflexivity ] ].
+    rewrite bind_eof. stsimpl. rwf (p >=? L). cbn [hd0 Z.eqb]. chs. rwf (d =? 78). rwf (d =? 90). rwf (d =? 83).
+    rewrite <- E in H. fold (G p o lv t tp fnm).
+    assert (HB : hd0 (ta ++ rest) <> 66).
+    { destruct (TA_hd n ta Hta) as [E1 | [r E1]]; subst ta; cbn [app hd0]; [ exact HfB | lia ]. }
+    erewrite bind_R; [| apply (unq_skip k2 p o lv t tp fnm id (ta ++ rest)); try assumption; lia ].
+    cbn [Z.ltb Z.compare].
+    rewrite (targs_cont n ta (S k2) _ o lv t tp fnm rest 0 Hta IH ltac:(lia) (At_src_tail _ _ _ H) HfI ltac:(lia) eq_refl).
+    f_equal. unfold G. f_equal. rewrite app_length. lia.
+  - (* N <items> E *)
+    intros n items Hi IH k p o lv t tp fnm rest Ht H [HfI HfB] Hk.
+    destruct k as [| k]; [ lia |].
+    change (run true s 0 (S k) (LType (-1))) with (type_loop true s 0 (run true s 0 k) (-1)).
+    unfold type_loop. unfold G at 1. cbn [app] in H. rewrite <- app_assoc in H. cbn [app] in H.
+    pose proof (At_lt _ _ _ H).
+    rewrite bind_eof. stsimpl. rwf (p >=? L). cbn [Z.eqb].
+    erewrite bind_R; [| apply (curr_at _ (78 :: items ++ 69 :: rest)); [ exact H | reflexivity ] ].
+    cbn [hd0]. sc_eval. chs. cbn [Z.eqb Pos.eqb]. unfold isdigit. cbn [Z.leb Z.compare Pos.compare Pos.compare_cont andb orb].
+    destruct k as [| k1]; [ lia |]. destruct k1 as [| k2]; [ lia |].
+    change (run true s 0 (S (S k2)) FName) with (dd_name true s 0 (run true s 0 (S k2))).
+    unfold dd_name.
+    erewrite bind_R; [| apply (curr_at _ (78 :: items ++ 69 :: rest)); [ exact H | reflexivity ] ].
+    rewrite bind_eof. stsimpl. rwf (p >=? L). cbn [hd0 Z.eqb]. chs. cbn [Z.eqb Pos.eqb].
+    change (run true s 0 (S k2) FNestedName) with (dd_nested_name s 0 (run true s 0 k2)).
+    unfold dd_nested_name.
+    rewrite bind_eof. stsimpl. rwf (p >=? L). cbn [Z.eqb].
+    unfold expect at 1. unfold consume.
+    erewrite bind_R; [| apply (consume_n_at _ 1 (78 :: items ++ 69 :: rest)); [ exact H | reflexivity | cbn [List.length]; lia ] ].
+    cbn [hd0]. chs. cbn [Z.eqb Pos.eqb]. stsimpl.
+    unfold inc_level. rewrite bind_modify. stsimpl.
+    apply At_cons in H. fold (G (p + 1) o (lv + 1) t tp fnm).
+    erewrite bind_R; [| apply (IH k2 (p + 1) o (lv + 1) t tp fnm rest Ht H); lia ].
+    apply At_app in H.
+    unfold expect. unfold consume. unfold G at 1.
+    erewrite bind_R; [| apply (consume_n_at _ 1 (69 :: rest)); [ exact H | reflexivity | cbn [List.length]; lia ] ].
+    cbn [hd0]. chs. cbn [Z.eqb Pos.eqb]. stsimpl.
+    unfold dec_level. rewrite bind_modify. unfold ret, G. stsimpl.
+    replace (lv + 1 - 1) with lv by lia. f_equal. f_equal. cbn [List.length]. rewrite app_length. cbn [List.length]. lia.
+  - (* no <targs> *)
+    intros k p o lv t tp fnm rest Ht Hne. contradiction.
+  - (* I <targ>* E *)
+    intros n l Hl IH k p o lv t tp fnm rest Ht _ H Hk.
+    destruct k as [| k]; [ lia |].
+    change (run true s 0 (S k) FTemplateArgs) with (dd_template_args s 0 (run true s 0 k)).
+    unfold dd_template_args. unfold G at 1. cbn [app] in H. rewrite <- app_assoc in H. cbn [app] in H.
+    pose proof (At_lt _ _ _ H).
+    rewrite bind_eof. stsimpl. rwf (p >=? L). cbn [Z.eqb].
+    unfold expect at 1. unfold consume.
+    erewrite bind_R; [| apply (consume_n_at _ 1 (73 :: l ++ 69 :: rest)); [ exact H | reflexivity | cbn [List.length]; lia ] ].
+    cbn [hd0]. chs. cbn [Z.eqb Pos.eqb]. stsimpl.
+    unfold inc_templates, inc_level. rewrite !bind_modify. stsimpl.
+    fold (G (p + 1) o (lv + 1) t (tp + 1) fnm).
+    apply At_cons in H.
+    erewrite bind_R; [| apply (IH k (p + 1) o (lv + 1) t (tp + 1) fnm rest Ht H); lia ].
+    cbn [Z.ltb Z.compare].
+    apply At_app in H.
+    unfold expect. unfold consume. unfold G at 1.
+    erewrite bind_R; [| apply (consume_n_at _ 1 (69 :: rest)); [ exact H | reflexivity | cbn [List.length]; lia ] ].
+    cbn [hd0]. chs. cbn [Z.eqb Pos.eqb]. stsimpl.
+    unfold dec_level, dec_templates. rewrite !bind_modify. unfold ret, G. stsimpl.
+    replace (lv + 1 - 1) with lv by lia. replace (tp + 1 - 1) with tp by lia.
+    f_equal. f_equal. cbn [List.length]. rewrite app_length. cbn [List.length]. lia.
+  - (* end of the argument list *)
+    intros k p o lv t tp fnm rest Ht H Hk.
+    destruct k as [| k]; [ lia |].
+    cbn [run body]. unfold until_E. unfold G at 1. cbn [app] in H.
+    erewrite bind_R; [| apply (curr_at _ (69 :: rest)); [ exact H | reflexivity ] ].
+    cbn [hd0 List.length]. chs. cbn [Z.eqb Pos.eqb]. replace (p + Z.of_nat 0) with p by lia. reflexivity.
+  - (* a type argument *)
+    intros n m u l Hu IHu Hl IHl k p o lv t tp fnm rest Ht H Hk.
+    destruct k as [| k]; [ lia |].
+    cbn [run body]. unfold until_E. unfold G at 1. rewrite <- app_assoc in H.
+    pose proof (TyL_hd n u Hu (l ++ 69 :: rest)) as Hh.
+    destruct (tyhd_facts _ Hh) as [Fe [FI FB]].
+    assert (Hne : hd0 (u ++ l ++ 69 :: rest) <> 69).
+    { intros E. rewrite E in Fe. discriminate. }
+    assert (Hlt : p < L).
+    { destruct (u ++ l ++ 69 :: rest) as [| c r] eqn:E; [ discriminate |]. apply (At_lt _ _ _ H). }
+    erewrite bind_R; [| apply (curr_at _ (u ++ l ++ 69 :: rest)); [ exact H | reflexivity ] ].
+    chs. rwf (hd0 (u ++ l ++ 69 :: rest) =? 69).
+    (* dd_template_arg -> dd_type *)
+    assert (Harg : run true s 0 k FTemplateArg (G p o lv t tp fnm) = R 0 (G (p + Z.of_nat (List.length u)) o lv t tp fnm)).
+    { destruct k as [| k1]; [ lia |]. destruct k1 as [| k2]; [ lia |].
+      change (run true s 0 (S (S k2)) FTemplateArg) with (dd_template_arg s 0 (run true s 0 (S k2))).
+      unfold dd_template_arg. unfold G at 1.
+      erewrite bind_R; [| apply (curr_at _ (u ++ l ++ 69 :: rest)); [ exact H | reflexivity ] ].
+      rewrite bind_eof. stsimpl. rwf (p >=? L). cbn [Z.eqb]. chs.
+      assert (Hx : (hd0 (u ++ l ++ 69 :: rest) =? 88) = false /\ (hd0 (u ++ l ++ 69 :: rest) =? 76) = false /\
+                   (hd0 (u ++ l ++ 69 :: rest) =? 74) = false).
+      { clear - Hh. unfold tyhd, tyqual_okb, is_builtin in Hh. cbn in Hh.
+        repeat (apply orb_prop in Hh; destruct Hh as [Hh | Hh]); try discriminate;
+          try (apply Z.eqb_eq in Hh; rewrite Hh; repeat split; reflexivity).
+        unfold isdigit in Hh. repeat split; lia. }
+      destruct Hx as [X1 [X2 X3]]. rewrite X1, X2, X3.
+      fold (G p o lv t tp fnm).
+      erewrite bind_R; [| apply (type_wrap n u IHu (TyL_nonempty n u Hu) (S k2) p o lv t tp fnm (l ++ 69 :: rest) Ht H (proj1 (TAL_hd m l Hl rest))); lia ].
+      reflexivity. }
+    fold (G p o lv t tp fnm). erewrite bind_R; [| exact Harg ].
+    cbn [Z.ltb Z.compare].
+    rewrite (IHl k _ o lv t tp fnm rest Ht (At_app _ _ _ H) ltac:(lia)).
+    f_equal. unfold G. f_equal. rewrite app_length. lia.
+  - (* a literal argument  L <builtin> <number> E *)
+    intros c v m l Hc Hv Hl IHl k p o lv t tp fnm rest Ht H Hk.
+    destruct k as [| k]; [ lia |].
+    cbn [run body]. unfold until_E. unfold G at 1. cbn [app] in H. rewrite <- app_assoc in H. cbn [app] in H.
+    pose proof (At_lt _ _ _ H) as Hlt.
+    erewrite bind_R; [| apply (curr_at _ (76 :: c :: dec v ++ 69 :: l ++ 69 :: rest)); [ exact H | reflexivity ] ].
+    cbn [hd0]. chs. cbn [Z.eqb Pos.eqb].
+    pose proof (At_cons _ _ _ H) as H1. pose proof (At_cons _ _ _ H1) as H2.
+    replace (p + 1 + 1) with (p + 2) in H2 by lia.
+    pose proof (At_app _ _ _ H2) as H3.
+    pose proof (At_lt _ _ _ H1) as Hlt1. pose proof (At_lt _ _ _ H3) as Hlt3.
+    destruct (hd0_dec_digit v (69 :: l ++ 69 :: rest) Hv) as [Hdg Hdne].
+    assert (Harg : run true s 0 k FTemplateArg (G p o lv t tp fnm) =
+                   R 0 (G (p + 2 + Z.of_nat (List.length (dec v)) + 1) o lv t tp fnm)).
+    { destruct k as [| k1]; [ lia |]. destruct k1 as [| k2]; [ lia |].
+      change (run true s 0 (S (S k2)) FTemplateArg) with (dd_template_arg s 0 (run true s 0 (S k2))).
+      unfold dd_template_arg. unfold G at 1.
+      erewrite bind_R; [| apply (curr_at _ (76 :: c :: dec v ++ 69 :: l ++ 69 :: rest)); [ exact H | reflexivity ] ].
+      rewrite bind_eof. stsimpl. rwf (p >=? L). cbn [hd0 Z.eqb]. chs. cbn [Z.eqb Pos.eqb].
+      fold (G p o lv t tp fnm).
+      assert (Hep : run true s 0 (S k2) FExprPrimary (G p o lv t tp fnm) =
+                    R 0 (G (p + 2 + Z.of_nat (List.length (dec v)) + 1) o lv t tp fnm)).
+      2:{ erewrite bind_R; [| exact Hep ]. reflexivity. }
+      change (run true s 0 (S k2) FExprPrimary) with (dd_expr_primary s 0 (run true s 0 k2)).
+      unfold dd_expr_primary. unfold G at 1.
+      rewrite bind_eof. stsimpl. rwf (p >=? L). cbn [Z.eqb].
+      unfold expect at 1. unfold consume.
+      erewrite bind_R; [| apply (consume_n_at _ 1 (76 :: c :: dec v ++ 69 :: l ++ 69 :: rest)); [ exact H | reflexivity | cbn [List.length]; lia ] ].
+      cbn [hd0]. chs. cbn [Z.eqb Pos.eqb]. stsimpl.
+      unfold inc_typ, inc_level. rewrite !bind_modify. stsimpl.
+      erewrite bind_R; [| apply (curr_at _ (c :: dec v ++ 69 :: l ++ 69 :: rest)); [ exact H1 | reflexivity ] ].
+      erewrite bind_R; [| apply (peek1_at _ c (dec v ++ 69 :: l ++ 69 :: rest)); [ exact H1 | reflexivity ] ].
+      cbn [hd0]. pose proof (builtin_lower c Hc) as Hlow. chs. rwf (c =? 95). cbn [andb].
+      fold (G (p + 1) o (lv + 1) (t + 1) tp fnm).
+      erewrite bind_R.
+      2:{ apply (type_wrap 1 [c] (P_builtin c Hc) ltac:(discriminate) k2 (p + 1) o (lv + 1) (t + 1) tp fnm
+                   (dec v ++ 69 :: l ++ 69 :: rest)); [ lia | exact H1 | | lia ].
+          apply isdigit_range in Hdg. split; lia. }
+      cbn [List.length]. replace (p + 1 + Z.of_nat 1) with (p + 2) by lia.
+      unfold G at 1.
+      destruct (number_lit_at (mkst (p + 2) L o (t + 1) (lv + 1) tp false fnm false false) v (l ++ 69 :: rest) H2 eq_refl Hv) as [rv Hnum].
+      erewrite bind_R; [| exact Hnum ].
+      stsimpl.
+      erewrite bind_R; [| apply (curr_at _ (69 :: l ++ 69 :: rest)); [ exact H3 | reflexivity ] ].
+      cbn [hd0]. chs. cbn [Z.eqb Pos.eqb]. rewrite bind_ret_k.
+      unfold expect. unfold consume.
+      erewrite bind_R; [| apply (consume_n_at _ 1 (69 :: l ++ 69 :: rest)); [ exact H3 | reflexivity | cbn [List.length]; lia ] ].
+      cbn [hd0]. chs. cbn [Z.eqb Pos.eqb]. stsimpl.
+      unfold dec_level, dec_typ. rewrite !bind_modify. unfold ret, G. stsimpl.
+      replace (t + 1 - 1) with t by lia. replace (lv + 1 - 1) with lv by lia. reflexivity. }
+    fold (G p o lv t tp fnm). erewrite bind_R; [| exact Harg ].
+    cbn [Z.ltb Z.compare].
+    rewrite (IHl k _ o lv t tp fnm rest Ht (At_cons _ _ _ H3) ltac:(lia)).
+    f_equal. unfold G. f_equal. cbn [List.length]. repeat rewrite app_length. cbn [List.length]. lia.
+  - (* end of a nested name *)
+    intros k p o lv t tp fnm rest Ht H Hk.
+    destruct k as [| k]; [ lia |].
+    cbn [run body]. unfold nested_loop, G. cbn [app] in H.
+    erewrite bind_R; [| apply (curr_at _ (69 :: rest)); [ exact H | reflexivity ] ].
+    rewrite bind_eof. stsimpl. pose proof (At_lt _ _ _ H). rwf (p >=? L). cbn [hd0 List.length]. chs.
+    replace (p + Z.of_nat 0) with p by lia. reflexivity.
+  - (* <source-name> [<targs>] in a nested name *)
+    intros id n ta m l Hid Hta IHa Hl IHl k p o lv t tp fnm rest Ht H Hk.
+    destruct k as [| k]; [ lia |]. destruct k as [| k1]; [ lia |].
+    change (run true s 0 (S (S k1)) (LNested 0)) with (nested_loop true s 0 (run true s 0 (S k1)) 0).
+    unfold nested_loop. rewrite <- !app_assoc in H.
+    set (tail := ta ++ l ++ 69 :: rest) in *.
+    pose proof (src_hd_digit id tail Hid) as Hd.
+    destruct (src id ++ tail) as [| d tl] eqn:E.
+    { exfalso. unfold src in E. destruct (hd0_dec_digit _ (id ++ tail) (ident_len id Hid)) as [_ Hne].
+      rewrite <- app_assoc in E. destruct (dec (Z.of_nat (List.length id))); [ contradiction | discriminate ]. }
+    cbn [hd0] in Hd. unfold G at 1.
+    erewrite bind_R; [| apply (curr_at _ (d :: tl)); [ exact H | reflexivity ] ].
+    rewrite bind_eof. stsimpl. pose proof (At_lt _ _ _ H) as Hlt. rwf (p >=? L). cbn [hd0]. chs. cbn [Z.eqb].
+    rwf (d =? 69). cbn [orb negb].
+    erewrite bind_R; [| apply (peek1_at _ d tl); [ exact H | reflexivity ] ].
+    rwf (d =? 68). rwf (d =? 67). cbn [andb orb]. rwf (d =? 85). cbn [orb].
+    unfold islower, isdigit. rwf (97 <=? d). rwt (48 <=? d). rwt (d <=? 57). cbn [andb orb].
+    rewrite <- E in H. fold (G p o lv t tp fnm).
+    pose proof (NI_hd m l Hl rest) as Hh.
+    assert (HB : hd0 tail <> 66).
+    { unfold tail. destruct (TA_hd n ta Hta) as [E1 | [r E1]]; subst ta; cbn [app hd0]; [| lia ].
+      cbn zeta in Hh. lia. }
+    erewrite bind_R; [| apply (unq_skip k1 p o lv t tp fnm id tail); try assumption; lia ].
+    rewrite (ni_cont n ta m l (S k1) _ o lv t tp fnm rest Hta IHa IHl Ht (At_src_tail _ _ _ H) Hh ltac:(lia)).
+    f_equal. unfold G. f_equal. repeat rewrite app_length. lia.
+  - (* S <seq-id> _ [<targs>] in a nested name *)
+    intros seq n ta m l Hs Hta IHa Hl IHl k p o lv t tp fnm rest Ht H Hk.
+    destruct k as [| k]; [ lia |]. destruct k as [| k1]; [ lia |].
+    change (run true s 0 (S (S k1)) (LNested 0)) with (nested_loop true s 0 (run true s 0 (S k1)) 0).
+    unfold nested_loop. cbn [app] in H. rewrite <- !app_assoc in H. cbn [app] in H. rewrite <- app_assoc in H.
+    set (tail := ta ++ l ++ 69 :: rest) in *.
+    unfold G at 1.
+    erewrite bind_R; [| apply (curr_at _ (83 :: seq ++ 95 :: tail)); [ exact H | reflexivity ] ].
+    rewrite bind_eof. stsimpl. pose proof (At_lt _ _ _ H) as Hlt. rwf (p >=? L). cbn [hd0]. chs.
+    cbn [Z.eqb Pos.eqb orb negb].
+    erewrite bind_R; [| apply (peek1_at _ 83 (seq ++ 95 :: tail)); [ exact H | reflexivity ] ].
+    cbn [andb orb]. unfold islower, isdigit. cbn [Z.leb Z.compare Pos.compare Pos.compare_cont andb orb].
+    fold (G p o lv t tp fnm).
+    erewrite bind_R; [| apply (subst_seq_at p o lv t tp fnm seq tail); assumption ].
+    assert (H2 : At (p + Z.of_nat (List.length seq) + 2) tail).
+    { replace (p + Z.of_nat (List.length seq) + 2) with (p + Z.of_nat (List.length (83 :: seq ++ [95])))
+        by (cbn [List.length]; rewrite app_length; cbn [List.length]; lia).
+      apply At_app. cbn [app]. rewrite <- app_assoc. exact H. }
+    rewrite (ni_cont n ta m l (S k1) _ o lv t tp fnm rest Hta IHa IHl Ht H2 (NI_hd m l Hl rest) ltac:(lia)).
+    f_equal. unfold G. f_equal. cbn [List.length]. repeat rewrite app_length. cbn [List.length]. repeat rewrite app_length. lia.
+Qed.
 End Walk.
 
 (* ================================================================ the formal mangler and the theorem *)
